@@ -66,6 +66,18 @@ func (r *Run) Explore(p *eng.Profile, props ...string) {
 	eng.Explore(p, r.Pool, r.Deadline, r.Stats, r.OnViol(props...))
 }
 
+// ExploreFiltered runs E1 for a profile and keeps only the violations accepted by keep.
+func (r *Run) ExploreFiltered(p *eng.Profile, keep func(eng.Violation) bool, props ...string) {
+	Register(p)
+	r.Col.Minimise = nil
+	on := r.OnViol(props...)
+	eng.Explore(p, r.Pool, r.Deadline, r.Stats, func(v eng.Violation) {
+		if keep(v) {
+			on(v)
+		}
+	})
+}
+
 // Profiles is the registry used by workers, the minimiser and replay.
 var Profiles = map[string]*eng.Profile{}
 
